@@ -15,20 +15,25 @@ import odl
 from odl.discr import diff_ops
 
 from symnp.ctx import flat
+from symnp.larr import LArr, LProxy
 
 EXPLANATION = ('C13: finite_diff and the four difference operators are executed on arrays of solver '
                'variables; per configuration (method, padding, shape, axis, cell side, dtype) every output '
                'entry must equal the ghost-cell reference stencil for all array contents and pad constants; '
-               'adjoint identities <Ax,y>=<x,A*y> are decided as polynomial identities in x and y.')
+               'adjoint identities <Ax,y>=<x,A*y> are decided as polynomial identities in x and y.  anylen/*: '
+               'finite_diff runs once on a 1-d array of symbolic LENGTH; the entry at a symbolic position must equal '
+               'the ghost-cell stencil (forward modes) or the column of minus the transposed forward matrix (adjoint '
+               'modes), out-of-place and with out=, for every length and position.')
 BOUNDS = {
-    'quick': {'methods': 3, 'pad_modes': 10, 'axis_lengths_1d': '2..5', 'ndim': '1-3', 'shapes_2d': '(2,3),(3,4)', 'shapes_3d': '(2,3,4) raw arrays; (2,3,3)/(3,3,3)/(2,3,2) operators',
+    'quick': {'anylen': '1-d, every length n >= 2 (3 for order2) and position 0 <= d < n (unbounded integers)', 'methods': 3, 'pad_modes': 10, 'axis_lengths_1d': '2..5', 'ndim': '1-3', 'shapes_2d': '(2,3),(3,4)', 'shapes_3d': '(2,3,4) raw arrays; (2,3,3)/(3,3,3)/(2,3,2) operators',
               'cell_sides': '1/2, 1, 2', 'dtypes': 'float64, complex128'},
-    'thorough': {'methods': 3, 'pad_modes': 10, 'axis_lengths_1d': '2..7', 'ndim': '1-3',
+    'thorough': {'anylen': '1-d, every length n >= 2 (3 for order2) and position 0 <= d < n (unbounded integers)', 'methods': 3, 'pad_modes': 10, 'axis_lengths_1d': '2..7', 'ndim': '1-3',
                  'shapes_2d': 'all (a,b) in 2..4', 'shapes_3d': '(2,3,2),(3,3,3)', 'cell_sides': '1/2, 1, 2',
                  'dtypes': 'float64, complex128, float32'},
 }
-OUTSIDE = ['floating-point rounding', 'axis lengths above the stated bound (the code has no size-dependent branch '
-           'other than the short-axis aliasing corrections, which lengths 2..5 exercise)', 'ndim > 3']
+OUTSIDE = ['floating-point rounding', 'axis lengths above the stated bound for ndim >= 2 and for the operator classes '
+           '(1-d finite_diff is decided for EVERY length by anylen/*: the length and the examined position are solver '
+           'integers, symnp/larr.py; the order-2 one-sided rows recorded as a finding are excluded there)', 'ndim > 3']
 ASSUMPTIONS = ["'symmetric' padding of finite_diff replicates the edge value (the code comments and the pinned "
                "test test_finite_diff_symmetric_padding define it so; one docstring sentence says otherwise)"]
 EXHAUSTIVE = True
@@ -199,6 +204,13 @@ def configs(tier, seed):
                     [(2,), (3,), (4,), (5,), (2, 3), (3, 3), (3, 4), (2, 3, 2)]):
             out.append(('lap/%s/shape=%s' % (pad, 'x'.join(map(str, shp))),
                         dict(kind='lap', method='forward', pad=pad, shape=list(shp))))
+    # ---- every axis length at once (1-d): the length n and the examined position d are solver integers
+    for method in METHODS:
+        for pad in FWD_PADS + ADJ_PADS:
+            if has_variant(method, pad):
+                continue        # order-2 one-sided rows: recorded finding, asserted on the bounded family only
+            out.append(('anylen/%s/%s' % (method, pad), dict(kind='anylen', method=method, pad=pad, shape=[0],
+                                                              _settings={'max_paths': 400})))
     return out
 
 
@@ -206,7 +218,94 @@ def canaries(tier, seed):
     return [('canary/fd/forward/constant/n=4',
              dict(kind='fd', method='forward', pad='constant', shape=[4], axis=0, dx=0.5, dtype='float64')),
             ('canary/pd/central/order1/shape=3',
-             dict(kind='pd', method='central', pad='order1', shape=[3]))]
+             dict(kind='pd', method='central', pad='order1', shape=[3])),
+            ('canary/anylen/backward/periodic', dict(kind='anylen', method='backward', pad='periodic', shape=[0]))]
+
+
+# ------------------------------------------------- any length (symbolic n)
+def _ghost(j, n, pad):
+    """Extended array entry E(j), -1 <= j <= n, as ([(coefficient, index)], coefficient of pad_const); j and n may
+    be solver integers (the comparisons fork the path)."""
+    if bool(j == -1):
+        return {'constant': ([], 1), 'symmetric': ([(1, 0)], 0), 'order0': ([(1, 0)], 0),
+                'periodic': ([(1, n - 1)], 0), 'order1': ([(2, 0), (-1, 1)], 0),
+                'order2': ([(3, 0), (-3, 1), (1, 2)], 0)}[pad]
+    if bool(j == n):
+        return {'constant': ([], 1), 'symmetric': ([(1, n - 1)], 0), 'order0': ([(1, n - 1)], 0),
+                'periodic': ([(1, 0)], 0), 'order1': ([(2, n - 1), (-1, n - 2)], 0),
+                'order2': ([(3, n - 1), (-3, n - 2), (1, n - 3)], 0)}[pad]
+    return [(1, j)], 0
+
+
+def _row(i, n, method, pad):
+    """Row i of the forward ghost-cell stencil: ([(coefficient, column)], coefficient of pad_const), step 1."""
+    terms = {'forward': [(1, i + 1), (-1, i)], 'backward': [(1, i), (-1, i - 1)],
+             'central': [(Fr(1, 2), i + 1), (Fr(-1, 2), i - 1)]}[method]
+    pairs, k = [], 0
+    for c, j in terms:
+        ps, kk = _ghost(j, n, pad)
+        pairs += [(c * cc, idx) for cc, idx in ps]
+        k = k + c * kk
+    return pairs, k
+
+
+def _anylen(ctx, method, pad):
+    n = ctx.integer('n', MIN_LEN.get(pad, 2), None, default=6)
+    d = ctx.integer('d', 0, None, default=2)
+    ctx.assume(d < n)
+    f = ctx.uf('f', 1)
+    g = ctx.uf('g', 1)
+    c = ctx.real('c') if pad == 'constant' else 0
+    dx = 0.5
+    if ctx.sym:
+        arr = LArr(n, lambda i: f(i))
+        out = LArr(n, lambda i: g(i))
+        real_np = diff_ops.np
+        diff_ops.np = LProxy(real_np, g)
+        try:
+            res = diff_ops.finite_diff(arr, axis=0, dx=dx, method=method, pad_mode=pad, pad_const=c)
+            got = res.at(d)
+            ret = diff_ops.finite_diff(arr, axis=0, dx=dx, method=method, pad_mode=pad, pad_const=c, out=out)
+            ctx.fact('returns-out', ret is out)
+            got_out = out.at(d)
+            unchanged = arr.at(d)
+        finally:
+            diff_ops.np = real_np
+    else:
+        arr = np.array([f(i) for i in range(n)], dtype=float)
+        out = np.array([g(i) for i in range(n)], dtype=float)
+        res = diff_ops.finite_diff(arr, axis=0, dx=dx, method=method, pad_mode=pad, pad_const=c)
+        got = res[d]
+        ret = diff_ops.finite_diff(arr, axis=0, dx=dx, method=method, pad_mode=pad, pad_const=c, out=out)
+        ctx.fact('returns-out', ret is out)
+        got_out = out[d]
+        unchanged = arr[d]
+    if not pad.endswith('_adjoint'):
+        pairs, k = _row(d, n, method, pad)
+        ref = sum((_mul(Fr(cc), f(idx)) for cc, idx in pairs), 0) + _mul(Fr(k), c) if k else \
+            sum((_mul(Fr(cc), f(idx)) for cc, idx in pairs), 0)
+    else:
+        # minus the transpose of the forward rule with the adjoint method: column d of that matrix
+        base, m = pad[:-len('_adjoint')], ADJ_METHOD[method]
+        cands, rows = [d - 1, d, d + 1, 0, n - 1], []
+        for i in cands:
+            if not bool(i >= 0) or not bool(i < n):
+                continue
+            if any(bool(i == r) for r in rows):
+                continue
+            rows.append(i)
+        ref = 0
+        for i in rows:
+            pairs, _ = _row(i, n, m, base)
+            coef = sum((Fr(cc) for cc, idx in pairs if bool(idx == d)), Fr(0))
+            if coef != 0:
+                ref = ref + _mul(-coef, f(i))
+    ref = ref * (1 / dx) if not isinstance(ref, Fr) else float(ref) / dx
+    if ctx.canary:
+        ref = ref + 1
+    ctx.eq('stencil-at-any-position', got, ref)
+    ctx.eq('stencil-inplace-at-any-position', got_out, ref)
+    ctx.eq('input-unchanged', unchanged, f(d))
 
 
 # -------------------------------------------------------------------- case
@@ -217,6 +316,8 @@ def _space(shape):
 
 
 def case(ctx, kind, method, pad, shape, axis=0, dx=1.0, dtype='float64'):
+    if kind == 'anylen':
+        return _anylen(ctx, method, pad)
     shape = tuple(shape)
     ndim = len(shape)
     variant = has_variant(method, pad)
